@@ -80,7 +80,7 @@ class Run:
         self.program = program
         self.mode = mode      # 0: one channel; 1/2: the two handlers of a type listen on different channels and the event is
         #                       fired to both, in the order (cx, cy) / (cy, cx) - handler priority must still decide the order
-        h_a, h_b, h_c, externals, mid = program
+        h_a, h_b, h_c, externals, mid = program[:5]
         self.split = {}
         self.m = Manager()
         self.log = []        # ('fire', eid, typ, prio, pass_no, by) | ('h', eid, hprio) | ('stopcall', eid, hprio)
@@ -160,7 +160,7 @@ class Run:
             self.m.fire(event, priority=prio)
 
     def execute(self):
-        _h_a, _h_b, _h_c, externals, mid = self.program
+        _h_a, _h_b, _h_c, externals, mid = self.program[:5]
         for typ, prio in externals:
             self.fire(typ, prio)
         quiescent = False
@@ -184,7 +184,7 @@ def judge(program, log, maxdepth, quiescent):
     """Oracle: the constraints of the statement on the ghost log.  Returns list of (kind, text).
 
     An event object may be queued more than once (body 'refire'); every queued instance is one dispatch."""
-    h_a, h_b, h_c, _ext, _mid = program
+    h_a, h_b, h_c, _ext, _mid = program[:5]
     hsets = {'A': h_a, 'B': h_b, 'C': h_c}
     bad = []
     typ_of = {}
@@ -344,8 +344,45 @@ def _work(part, nparts, payload):
         st.interesting(('rf', program))
         for kind, text in bad:
             st.fail('refire:' + kind, text + ' [a handler re-fires the event object it is handling]', program_json(program))
+    # big batches: many events queued when a pass begins (priority and FIFO hold for the whole batch, whatever its size)
+    for i, program in enumerate(itertools.islice(big_batch_space(tier), part, None, nparts)):
+        log, maxdepth, quiescent = run_one(program)
+        st.executions += 1
+        st.counters['big_batch_programs'] += 1
+        st.transitions += sum(1 for e in log if e[0] == 'h')
+        bad, nontrivial = judge(program, log, maxdepth, quiescent)
+        st.outcome(('big', len(program[3]), tuple(e[1] for e in log if e[0] == 'h')[:40]))
+        st.interesting(('big', len(program[3]), program[3][:8], program[3][-3:]))
+        for kind, text in bad[:3]:
+            st.fail('big-batch:' + kind, text + ' [%d events queued before the pass; priorities %r ... %r]' % (len(program[3]), [p for _t, p in program[3][:6]], [p for _t, p in program[3][-3:]]),
+                    {'big': True, 'n': len(program[3]), 'pattern': program[5]})
     st.states = len(st.outcomes)
     return st
+
+
+BIG_SIZES = {'quick': (129, 300, 1100), 'thorough': (64, 128, 129, 130, 255, 256, 257, 300, 1100, 5000)}
+BIG_PATTERNS = ('last-urgent', 'first-slow', 'cycle3', 'descending', 'urgent-every-100')
+
+
+def big_externals(n, pattern):
+    if pattern == 'last-urgent':
+        pr = [1] * (n - 1) + [-1]
+    elif pattern == 'first-slow':
+        pr = [2] + [0] * (n - 1)
+    elif pattern == 'cycle3':
+        pr = [(0, 2, -1)[i % 3] for i in range(n)]
+    elif pattern == 'descending':
+        pr = [n - i for i in range(n)]
+    else:
+        pr = [(-1 if i % 100 == 99 else 0.5) for i in range(n)]
+    return tuple(('A' if i % 2 == 0 else 'B', p) for i, p in enumerate(pr))
+
+
+def big_batch_space(tier):
+    for n in BIG_SIZES[tier]:
+        for pattern in BIG_PATTERNS:
+            for h_a in (((0, 'nop'),), ((0, ('fire', 0)), (1, 'nop'))):
+                yield (h_a, ((0, 'nop'),), ((0, 'nop'),), big_externals(n, pattern), None, pattern)
 
 
 def refire_space(tier, h_b, exts, mids):
@@ -365,7 +402,7 @@ def run(tier, seed, workers):
     st = core.parallel(_work, (tier, seed), workers, nparts=workers * 4)
     if l1 != l2:
         st.selfcheck_errors.append('determinism: same program gave two different logs')
-    if st.executions - st.counters['multi_channel_programs'] - st.counters['refire_programs'] != total_programs:
+    if st.executions - st.counters['multi_channel_programs'] - st.counters['refire_programs'] - st.counters['big_batch_programs'] != total_programs:
         st.selfcheck_errors.append('enumeration: executed %d of %d programs' % (st.executions, total_programs))
     st.states = len(st.outcomes)
     st.bounds = {'handler_sets_A': len(h_a), 'handler_sets_B': len(h_b), 'handler_sets_C': len(h_c),
@@ -379,6 +416,13 @@ def run(tier, seed, workers):
 
 
 def replay(witness):
+    if witness.get('big'):
+        program = [p for p in big_batch_space('thorough') if len(p[3]) == witness['n'] and p[5] == witness['pattern']][0]
+        log, maxdepth, quiescent = run_one(program)
+        bad, _ = judge(program, log, maxdepth, quiescent)
+        text = 'big batch: %d events, pattern %s\n' % (witness['n'], witness['pattern'])
+        text += ''.join('VIOLATED: %s: %s\n' % b for b in bad[:5]) or 'all order constraints hold\n'
+        return (not bad), text
     program = program_from_json(witness)
     log, maxdepth, quiescent = run_one(program, witness.get('mode', 0))
     bad, _ = judge(program, log, maxdepth, quiescent)
